@@ -475,6 +475,22 @@ func c08Catalog() []c08Entry {
 			if err != nil {
 				g.ctx.Harness("ring: %v", err)
 			}
+			if g.ch.Chance("ring-custom-root", 1, 4) {
+				// a ring over a root of unity of higher order than 2N (as parameter sets with LogNthRoot request),
+				// up to 2^12 * N
+				N := 16
+				nth := N << uint(1+g.ch.Draw("ring-root-extra", 12))
+				gen := ring.NewNTTFriendlyPrimesGenerator(40, uint64(nth))
+				ps, err := gen.NextAlternatingPrimes(1 + g.ch.Draw("ring-root-moduli", 3))
+				if err != nil {
+					g.ctx.Harness("primes: %v", err)
+				}
+				if r, err = ring.NewRingWithCustomNTT(N, ps, ring.NewNumberTheoreticTransformerStandard, nth); err != nil {
+					g.ctx.Harness("ring with custom root: %v", err)
+				}
+				g.ctx.Count("probe.ring-with-root-of-higher-order", 1)
+				return r
+			}
 			if r.Level() > 0 && g.ch.Chance("ring-level-view", 1, 3) {
 				// a view of the ring at a lower level
 				r = r.AtLevel(g.ch.Draw("ring-view-level", r.Level()))
